@@ -111,6 +111,26 @@ def family(name, tier):
         yield from depth2(tier)
     elif name == "depth3":
         yield from depth3(tier)
+    elif name == "colliders":
+        # unions / structures over variants whose length sets differ but agree in min, max and residues mod 32: every representation's
+        # length must still be an element of the type's bit_length_set
+        for g in T.COLLIDERS:
+            for a, b in itertools.permutations(g, 2):
+                yield ["union", [a, b]]
+                yield ["struct", [["union", [a, b]], ["bool"]]]
+                yield ["struct", [a, b]]
+                yield ["union", [["farr", a, 2], ["farr", b, 2]]]
+                yield ["delim", ["union", [a, b]], L.tmax(["union", [a, b]]) + 8]
+    elif name == "nested-arrays":
+        # arrays of arrays of composites (only constructible through the API): alignment is that of the innermost element
+        comps = [["struct", [["uint", 8, "s"]]], ["struct", [["bool"]]], ["union", [["bool"], ["uint", 8, "s"]]], ["delim", ["struct", [["uint", 8, "s"]]], 16], ["struct", []]]
+        for c in comps:
+            for outer_k, inner_k in itertools.product(("farr", "varr"), repeat=2):
+                arr = [outer_k, [inner_k, c, 2], 2]
+                for lead in (["bool"], ["uint", 5, "s"], ["uint", 8, "s"]):
+                    yield ["struct", [lead, arr, ["bool"]]]
+                yield ["union", [["bool"], arr]]
+                yield ["struct", [["uint", 3, "s"], ["farr", ["farr", ["farr", c, 2], 1], 2]]]
 
 
 ALIAS_POOL = [
@@ -124,7 +144,7 @@ ALIAS_POOL = [
 
 
 def plan(tier):
-    fams = [("scalars", 8), ("depth1s", 24), ("depth1u", 16), ("depth2", 32)]
+    fams = [("scalars", 8), ("depth1s", 24), ("depth1u", 16), ("depth2", 32), ("colliders", 4), ("nested-arrays", 4)]
     if tier != "quick":
         fams.append(("depth3", 32))
     shards = [{"family": n, "part": p, "parts": k} for n, k in fams for p in range(k)]
